@@ -1,4 +1,5 @@
 import Cgm.Lemmas.AuditCmd
 import Cgm.E2E.C06
 import Cgm.E2E.C06i
+import Cgm.E2E.C06j
 #audit_namespace Cg.E2E.C06
